@@ -142,7 +142,7 @@ func sampleAwkward(sum *Summary, c json.RawMessage, sc *sCase, rng *rand.Rand) {
 		}
 		defer func(ai int) {
 			if !okx() || !okw() {
-				sum.viol("argument-modified", c, "awkward map %d: Quantile changed the sample or the spare capacity behind it", ai)
+				sum.viol("Quantile-modifies", c, "awkward map %d: Quantile changed the sample or the spare capacity behind it", ai)
 			}
 		}(ai)
 		type qr struct{ q, r float64 }
@@ -233,27 +233,19 @@ func sampleExtremes(sum *Summary, c json.RawMessage, sc *sCase) {
 	}
 	// (3) positive weights of extreme dynamic range (the extremes carry weights far below one ulp of the total, the rest
 	// inexact tenths): q >= 1 is still the largest and q <= 0 the smallest value of positive weight, and agrees with Bounds
-	if n >= 2 {
-		x := &stats.Sample{Xs: make([]float64, n), Weights: make([]float64, n), Sorted: sc.Init.Sorted}
-		imin, imax := 0, 0
+	mults := []float64{0.1, 1.1, 0.7, 1 / 3.0, 12.3, 0.013, 1e3 / 7}
+	for prof := 0; n >= 2 && prof < 6; prof++ {
+		// the case's values in the middle, one new smallest and one new largest value around them with the tiny weights
+		x := &stats.Sample{Xs: make([]float64, n+2), Weights: make([]float64, n+2), Sorted: sc.Init.Sorted}
+		lo, hi := float64(sc.Init.Xs[0]), float64(sc.Init.Xs[0])
 		for i, v := range sc.Init.Xs {
-			x.Xs[i] = float64(v)
-			x.Weights[i] = 0.1 * float64(sc.Init.Ws[i]+1)
-			if v < sc.Init.Xs[imin] {
-				imin = i
-			}
-			if v >= sc.Init.Xs[imax] {
-				imax = i
-			}
+			x.Xs[i+1] = float64(v)
+			x.Weights[i+1] = mults[(i*3+prof)%len(mults)] * float64(sc.Init.Ws[i]+1) // inexact, of mixed magnitude: sums of them round
+			lo, hi = math.Min(lo, float64(v)), math.Max(hi, float64(v))
 		}
-		lo, hi := x.Xs[imin], x.Xs[imax]
-		for i, v := range x.Xs {
-			if v == hi {
-				x.Weights[i] = 1e-18
-			} else if v == lo {
-				x.Weights[i] = 3e-19
-			}
-		}
+		lo, hi = lo-1, hi+1
+		x.Xs[0], x.Weights[0] = lo, 3e-19
+		x.Xs[n+1], x.Weights[n+1] = hi, 1e-18
 		sum.Checks++
 		bl, bh := x.Bounds()
 		for _, q := range []float64{1, 1.5, math.Inf(1)} {
